@@ -159,7 +159,7 @@ High == HighFlag(raw, prm)
 
 Inv_C01 == \A w \in Levels : HasT(w) => LET m == M(w) IN
    /\ C01_Grammar(m) /\ C01_Order(m) /\ C01_SecondSCT(m) /\ C01_ThirdBKN(m)
-   /\ C01_Stands(m, tbl[w], prm)
+   /\ C01_Stands(m, tbl[w], prm) /\ C01_NotZeroOkta(m, tbl[w], data, ids[Fld(w)], prm)
 Inv_C02 == \A w \in Levels : HasT(w) => LET m == M(w)  hi == High IN
    /\ C02_First(m, tbl[w], prm) /\ C02_Ceiling(m, tbl[w], prm) /\ C02_Listed(m, tbl[w])
    /\ C02_NCD(m, tbl[w], prm, hi) /\ C02_NSC(m, tbl[w], prm, hi)
